@@ -160,14 +160,32 @@ func countingLoop(comp []*ssa.BasicBlock) bool {
 	for _, b := range comp {
 		in[b] = true
 	}
-	invariant := func(v ssa.Value) bool {
+	var invariant func(v ssa.Value) bool
+	invariant = func(v ssa.Value) bool {
 		if _, ok := v.(*ssa.Const); ok {
 			return true
 		}
-		if i, ok := v.(ssa.Instruction); ok {
-			return !in[i.Block()]
+		i, ok := v.(ssa.Instruction)
+		if !ok {
+			return true // parameters, globals, functions
 		}
-		return true // parameters, globals
+		if !in[i.Block()] {
+			return true
+		}
+		// computed inside the loop from invariant operands only (no loads, no phis)
+		switch x := v.(type) {
+		case *ssa.BinOp:
+			return invariant(x.X) && invariant(x.Y)
+		case *ssa.Convert:
+			return invariant(x.X)
+		case *ssa.ChangeType:
+			return invariant(x.X)
+		case *ssa.Call:
+			if b, ok := x.Call.Value.(*ssa.Builtin); ok && (b.Name() == "len" || b.Name() == "cap") {
+				return invariant(x.Call.Args[0])
+			}
+		}
+		return false
 	}
 	isInduction := func(v ssa.Value) bool {
 		var ph *ssa.Phi
